@@ -293,8 +293,12 @@ func discharge(o *Obl, timeoutS int) *SolveResult {
 	t0 := time.Now()
 	if o.Kind == "vacuity" {
 		// expected: NOT unsat (sat, or unknown because of quantifiers)
-		text := o.smt("false", false)
-		st, sv, out, _ := race(text, minInt(timeoutS, 2), o.Name, []int{0, 1})
+		goal := "false"
+		if o.Formula != "" && o.Formula != "false" {
+			goal = o.Formula // reachability of a program point: assert its guard (Formula = (not guard))
+		}
+		text := o.smt(goal, false)
+		st, sv, out, _ := race(text, minInt(timeoutS, 3), o.Name, []int{0, 1})
 		r := &SolveResult{Solver: sv, Ms: time.Since(t0).Milliseconds(), Output: firstLines(out, 3), Rung: "vacuity"}
 		if st == "unsat" {
 			r.Status = "refuted" // contradictory assumptions
